@@ -850,3 +850,120 @@ pub fn c16_pty_case(ctx: &Ctx, env: &RealEnv, dir: &Path, case: u64, seed: u64, 
     rep.nontrivial.insert(fnv(manifest.as_bytes()) ^ 1);
     rep.sample(mk);
 }
+
+/// C16 (last clause): a command that dies of SIGINT -- whoever sent it, n2 itself need not have seen one --
+/// is an interruption that stops the build: nothing is started afterwards, and the exit status is not 0.
+/// Gated: the harness decides when the command signals itself, with other steps still queued.
+pub fn c16_interrupt_case(ctx: &Ctx, env: &RealEnv, dir: &Path, case: u64, seed: u64, rep: &mut Report) {
+    let _ = ctx;
+    let mut rng = Rng::new(seed);
+    let n = rng.range(3, 8);
+    let j = rng.range(1, 3).min(n - 1);
+    let pools = BTreeMap::new();
+    let mut tasks: Vec<GTask> = (0..n).map(|i| GTask { name: format!("t{}", i), out: format!("o{}", i), deps: vec![], via_phony: false, pool: None, fails: false, swallows: false }).collect();
+    let manifest_plain = gated_manifest(&tasks, &pools, &mut rng, false);
+    // every command may be the one that is told to interrupt itself: the release word decides
+    let manifest = manifest_plain.replace("read x < release/", "read x < release/").lines().map(|l| {
+        if l.trim_start().starts_with("command = ") {
+            // `read x` gets "go" or "int": on "int" the shell sends itself SIGINT
+            l.replace("&& : > ", "&& { [ \"$$x\" = int ] && kill -INT $$$$; : > ").to_string() + "; }"
+        } else {
+            l.to_string()
+        }
+    }).collect::<Vec<_>>().join("\n") + "\n";
+    for t in tasks.iter_mut() {
+        t.swallows = false;
+    }
+    prepare(dir, &tasks, &manifest);
+    let args: Vec<String> = vec!["-j".into(), j.to_string(), "-k".into(), "1000".into()];
+    let mut s = match Session::spawn(env, dir, &args, None) {
+        Ok(s) => s,
+        Err(e) => {
+            rep.inconclusive.push(format!("case {}: {}", case, e));
+            return;
+        }
+    };
+    rep.evaluations += 1;
+    rep.count("self_interrupt_cases", 1);
+    let idx: BTreeMap<String, usize> = tasks.iter().enumerate().map(|(i, t)| (t.name.clone(), i)).collect();
+    // wait for j commands to be executing
+    let t0 = Instant::now();
+    let mut st: BTreeSet<usize> = BTreeSet::new();
+    while t0.elapsed() < Duration::from_secs(20) {
+        s.pump();
+        st = s.started().iter().filter_map(|n| idx.get(n).copied()).collect();
+        if st.len() >= j || s.exited() {
+            break;
+        }
+        std::thread::sleep(Duration::from_millis(2));
+    }
+    if st.len() != j {
+        rep.inconclusive.push(format!("case {}: {} commands executing, expected {}", case, st.len(), j));
+        s.kill();
+        return;
+    }
+    let victim = *rng.pick(&st.iter().copied().collect::<Vec<_>>());
+    // "int" instead of "go"
+    {
+        let p = std::ffi::CString::new(dir.join("release").join(&tasks[victim].name).to_string_lossy().as_bytes()).unwrap();
+        let t1 = Instant::now();
+        loop {
+            let fd = unsafe { libc::open(p.as_ptr(), libc::O_WRONLY | libc::O_NONBLOCK) };
+            if fd >= 0 {
+                unsafe {
+                    libc::write(fd, b"int\n".as_ptr() as *const libc::c_void, 4);
+                    libc::close(fd);
+                }
+                break;
+            }
+            if t1.elapsed() > Duration::from_secs(10) {
+                rep.inconclusive.push(format!("case {}: could not reach {}", case, tasks[victim].name));
+                s.kill();
+                return;
+            }
+            std::thread::sleep(Duration::from_millis(1));
+        }
+    }
+    // from now on nothing new may start; the other executing commands are let go after a while so that
+    // n2 can end whichever way it handles them
+    let at_signal = st.clone();
+    let t2 = Instant::now();
+    let mut late: BTreeSet<usize> = BTreeSet::new();
+    let mut let_go = false;
+    while !s.exited() && t2.elapsed() < Duration::from_secs(30) {
+        s.pump();
+        let now: BTreeSet<usize> = s.started().iter().filter_map(|n| idx.get(n).copied()).collect();
+        for &i in now.difference(&at_signal) {
+            if late.insert(i) {
+                // (let it through so that the invocation can end)
+                s.release(&tasks[i].name);
+            }
+        }
+        if !let_go && t2.elapsed() > Duration::from_millis(1500) {
+            let_go = true;
+            for &i in at_signal.iter().filter(|&&i| i != victim) {
+                s.release(&tasks[i].name);
+            }
+        }
+        std::thread::sleep(Duration::from_millis(2));
+    }
+    let end = s.wait_exit(Duration::from_secs(5));
+    let text = String::from_utf8_lossy(&s.shown).into_owned();
+    let mk = || J::obj().with("case", J::i(case)).with("j", J::i(j)).with("manifest", J::s(&manifest)).with("interrupted", J::s(&tasks[victim].name)).with("output", J::s(text.chars().take(1500).collect::<String>()));
+    let Some((exit, sig)) = end else {
+        rep.inconclusive.push(format!("case {}: n2 did not end within 35 s of the interruption", case));
+        return;
+    };
+    if !late.is_empty() {
+        rep.violation(
+            "start-after-interrupted-command",
+            &format!("{} died of SIGINT with {} steps not yet started; afterwards n2 started {:?}", tasks[victim].name, n - j, late.iter().map(|&i| tasks[i].name.clone()).collect::<Vec<_>>()),
+            mk(),
+        );
+    }
+    if sig.is_none() && exit == Some(0) {
+        rep.violation("exit-zero-after-interrupted-command", "a command died of SIGINT and n2 exited 0", mk());
+    }
+    rep.nontrivial.insert(fnv(manifest.as_bytes()) ^ (victim as u64) << 3 ^ j as u64);
+    rep.sample(mk);
+}
